@@ -67,11 +67,29 @@ def strip_comments(src):
     src = re.sub(r"--.*", "", src)
     return src
 
-def forbidden_hits(root):
-    hits = []
-    for path in glob.glob(os.path.join(root, "lean", "**", "*.lean"), recursive=True):
-        if "/.lake/" in path:
+def import_closure(root, mod):
+    """Lean source files (relative module names) transitively imported by `mod` inside this project."""
+    seen, todo = set(), [mod]
+    while todo:
+        m = todo.pop()
+        if m in seen:
             continue
+        path = os.path.join(root, "lean", m.replace(".", "/") + ".lean")
+        if not os.path.exists(path):
+            continue
+        seen.add(m)
+        for line in open(path, encoding="utf-8"):
+            mm = re.match(r"\s*import\s+(\S+)", line)
+            if mm and mm.group(1).split(".")[0] in ("RefmtModel", "RefmtProofs", "Driver"):
+                todo.append(mm.group(1))
+    return seen
+
+def forbidden_hits(root, mod):
+    """sorry/admit/axiom/native_decide/... in the property's module, everything it imports, and the driver."""
+    hits = []
+    mods = import_closure(root, mod) | import_closure(root, "Driver.Main")
+    for m in sorted(mods):
+        path = os.path.join(root, "lean", m.replace(".", "/") + ".lean")
         src = strip_comments(open(path, encoding="utf-8").read())
         for n, line in enumerate(src.splitlines(), 1):
             if FORBIDDEN.search(line):
@@ -155,7 +173,7 @@ def run_proofs(root, pid, cfg, work):
             if bad:
                 res["bad_axioms"][t] = bad
                 failed.add(t)
-    res["forbidden"] = forbidden_hits(root)
+    res["forbidden"] = forbidden_hits(root, mod)
     if res["forbidden"]:
         failed.update(required)
     res["failed"] = sorted(failed)
